@@ -238,12 +238,210 @@ def family_case(rng, idx, nops):
     return ops
 
 
+PREFIX = {"gamma": "Gamma.", "gammaoff": "Gamma.", "beta": "Beta.", "gauss": "Gaussian.", "exp": "Exponential.",
+          "texp": "TruncExponential.", "unif": "Uniform."}
+
+
+class SimpleD:
+    """user-specified distribution: distinct values (sometimes closer than the precision, refused),
+    dyadic probabilities summing to one (sometimes not, refused)"""
+
+    def __init__(self, rng):
+        self.rng = rng
+        self.kind = "simple"
+        self.k = rng.randint(1, 6)
+        base = nice(rng, rng.choice([-1, 0, 1]) * logu(rng, 0.01, 10))
+        self.vals = sorted(set(round(base + i * nice(rng, logu(rng, 0.05, 3)), 6) for i in range(self.k)))
+        self.k = len(self.vals)
+        rng.shuffle(self.vals)
+        w = [rng.randint(1, 8) for _ in range(self.k)]
+        tot = sum(w)
+        # probabilities as multiples of 1/64 summing to exactly one
+        q = [max(1, (x * 64) // tot) for x in w]
+        q[0] += 64 - sum(q)
+        if q[0] < 1:
+            q = [1] * self.k; q[0] = 64 - (self.k - 1)
+        self.probs = [x / 64.0 for x in q]
+        self.n = self.k
+
+    def new(self):
+        vals, probs = list(self.vals), list(self.probs)
+        r = self.rng.random()
+        if r < 0.06 and self.k >= 2:
+            vals[1] = vals[0] + 1e-13          # equivalent to the first one: refused
+        elif r < 0.12:
+            probs[0] += 0.125                  # does not sum to one: refused
+        return "new simple %s 0 %d %s" % (hx(1e-12), self.k, " ".join(hx(v) + " " + hx(p) for v, p in zip(vals, probs)))
+
+    def support(self):
+        return (min(self.vals) - 0.5, max(self.vals) + 0.5)
+
+    def value(self):
+        lo, hi = self.support()
+        return self.rng.choice(self.vals + [self.rng.uniform(lo, hi), self.rng.uniform(lo - 3, hi + 3)])
+
+    def setp(self, prefix=""):
+        r = self.rng
+        q = r.random()
+        if q < 0.5:
+            i = r.randint(1, self.k + (1 if r.random() < 0.1 else 0))
+            v = r.choice(self.vals) if r.random() < 0.3 else nice(r, r.uniform(*self.support()))
+            if i <= self.k:
+                self.vals[i - 1] = v
+            return "setp %s %s" % (hs(prefix + "V%d" % i), hx(v))
+        if q < 0.95:
+            i = r.randint(1, max(1, self.k - 1) + (1 if r.random() < 0.1 else 0))
+            v = r.choice([-0.1, 1.5]) if r.random() < 0.12 else r.choice([0.0, 1.0, 0.5, 0.25, r.random()])
+            return "setp %s %s" % (hs(prefix + "theta%d" % i), hx(v))
+        return "setp %s %s" % (hs(prefix + "W1"), hx(1.0))
+
+    def restrict(self):
+        r = self.rng
+        lo, hi = self.support()
+        q = r.random()
+        if q < 0.6:
+            a, b = lo - r.random(), hi + r.random()
+        elif q < 0.8:
+            a, b = lo + (hi - lo) * r.uniform(0.2, 0.5), hi + 1
+        else:
+            a, b = hi + 5, hi + 6
+        return "restrict %s %s %d %d" % (hx(a), hx(b), r.choice([0, 1]), r.choice([0, 1]))
+
+
+class ConstD:
+    def __init__(self, rng):
+        self.rng = rng
+        self.kind = "const"
+        self.v = nice(rng, rng.choice([-1, 0, 1, 1]) * logu(rng, 0.01, 10))
+        self.n = 1
+
+    def new(self):
+        return "new const " + hx(self.v)
+
+    def support(self):
+        return (self.v - 1, self.v + 1)
+
+    def value(self):
+        return self.rng.choice([self.v, self.v + self.rng.uniform(-2, 2)])
+
+    def setp(self, prefix=""):
+        r = self.rng
+        if r.random() < 0.1:
+            return "setp %s %s" % (hs(prefix + "val"), hx(1.0))
+        v = self.v + r.uniform(-1.5, 1.5)
+        return "setp %s %s" % (hs(prefix + "value"), hx(nice(r, v)))
+
+    def restrict(self):
+        r = self.rng
+        q = r.random()
+        if q < 0.7:
+            a, b = self.v - r.uniform(0.1, 2), self.v + r.uniform(0.1, 2)
+        else:
+            a, b = self.v + 1, self.v + 2
+        return "restrict %s %s %d %d" % (hx(a), hx(b), r.choice([0, 1]), r.choice([0, 1]))
+
+
+PREFIX.update({"simple": "Simple.", "const": "Constant."})
+
+
+def leaf(rng, allow=("fam", "simple", "const")):
+    k = rng.choice(allow)
+    if k == "fam":
+        while True:
+            f = Fam(rng)
+            # tied constraints of a nested truncated exponential are not mirrored by the compound's copy: left to the leaf cases
+            if f.kind != "texp":
+                return f
+    return SimpleD(rng) if k == "simple" else ConstD(rng)
+
+
+def leaf_case(rng, idx, nops):
+    d = leaf(rng, ("simple", "const"))
+    ops = ["case leaf%d %s" % (idx, d.kind), d.new()]
+    ops += queries(rng, d, d.n, rng.randint(1, 4))
+    for _ in range(nops):
+        q = rng.random()
+        if q < 0.45:
+            ops.append(d.setp())
+        elif q < 0.55:
+            ops.append("setn %d" % pick_n(rng))
+        elif q < 0.65:
+            ops.append("median %d" % rng.choice([0, 1]))
+        elif q < 0.85:
+            ops.append(d.restrict())
+        elif q < 0.93:
+            ops.append("discretize")
+        else:
+            ops.append("copy")
+        ops += queries(rng, d, d.n, rng.randint(0, 3))
+    return ops
+
+
+def compound_case(rng, idx, nops):
+    """an invariant-mixed or a mixture distribution over leaves, then a history on the compound"""
+    ops = []
+    if rng.random() < 0.5:
+        d = leaf(rng, ("fam", "fam", "fam", "simple", "const"))
+        ops += ["case invar%d %s" % (idx, d.kind), d.new()]
+        p = rng.choice([0.0, 0.25, 0.1, 0.5, 1.0, rng.random(), 1.5 if rng.random() < 0.3 else 0.3])
+        lo, hi = d.support()
+        inv = rng.choice([0.0, 0.0, lo, hi + 1, nice(rng, rng.uniform(lo, hi)), lo - 1])
+        ops.append("new invar %s %s" % (hx(p), hx(inv)))
+        comps = [("", d)]
+        own = ["p"]
+        kind = "invar"
+    else:
+        k = rng.randint(1, 3)
+        ds = [leaf(rng, ("fam", "fam", "simple", "const")) for _ in range(k)]
+        ops.append("case mix%d %s" % (idx, "+".join(x.kind for x in ds)))
+        for x in ds:
+            ops += [x.new(), "push"]
+        w = [rng.randint(1, 8) for _ in range(k)]
+        q = [max(1, (x * 32) // sum(w)) for x in w]
+        q[0] += 32 - sum(q)
+        ws = [x / 32.0 for x in q]
+        if rng.random() < 0.1:
+            ws[0] += 0.25
+        ops.append("new mix %d %s" % (k, " ".join(hx(x) for x in ws)))
+        comps = [("%d_" % (i + 1), x) for i, x in enumerate(ds)]
+        own = ["theta%d" % (i + 1) for i in range(max(1, k - 1))]
+        kind = "mix"
+        d = ds[0]
+    nh = 8
+    ops += queries(rng, d, nh, rng.randint(1, 4))
+    for _ in range(nops):
+        q = rng.random()
+        if q < 0.2:
+            nm = rng.choice(own + (["theta9", "q"] if rng.random() < 0.1 else []))
+            v = rng.choice([-0.2, 1.2]) if rng.random() < 0.12 else rng.choice([0.0, 1.0, 0.5, 0.125, rng.random()])
+            ops.append("setp %s %s" % (hs(nm), hx(v)))
+        elif q < 0.45:
+            pre, c = rng.choice(comps)
+            ops.append(c.setp(pre + PREFIX[c.kind]))
+        elif q < 0.6:
+            ops.append("setn %d" % pick_n(rng))
+        elif q < 0.7:
+            ops.append("median %d" % rng.choice([0, 1]))
+        elif q < 0.85:
+            ops.append(rng.choice(comps)[1].restrict())
+        elif q < 0.93:
+            ops.append("discretize")
+        else:
+            ops.append("copy")
+        ops += queries(rng, d, nh, rng.randint(0, 3))
+    return ops
+
+
 def generate(seed, tier):
     rng = random.Random(seed)
     big = tier == "thorough"
     cases = []
-    for i in range(1500 if big else 220):
+    for i in range(6000 if big else 900):
         cases.append(family_case(rng, i, rng.randint(2, 14)))
+    for i in range(1200 if big else 200):
+        cases.append(leaf_case(rng, i, rng.randint(2, 10)))
+    for i in range(2500 if big else 400):
+        cases.append(compound_case(rng, i, rng.randint(2, 10)))
     return cases
 
 
